@@ -75,7 +75,7 @@ _F32_SPECIAL = [0x00000000, 0x80000000, 0x7F800000, 0xFF800000, 0x7FC00001, 0xFF
                 0x00000001, 0x7F7FFFFF, 0x3F800000]
 _F64_SPECIAL = [0, 1 << 63, 0x7FF0000000000000, 0xFFF0000000000000, 0x7FF8000000000001, 0xFFF8123456789ABC,
                 0x7FF0000000000001, 1, 0x7FEFFFFFFFFFFFFF, 0x3FF0000000000000]
-_STR_ALPHA = ["a", "Z", "0", " ", "'", "/", "é", "ß", "中", "\U0001F600", "́", "\\", "\"", "\x00"]
+_STR_ALPHA = ["a", "Z", "0", " ", "'", "/", "é", "ß", "中", "\U0001F600", "́", "\\", "\"", "\x00", "\ufeff", "\n"]
 
 
 def value(ty, p, k, seed=0, width=None, extra=0):
@@ -130,7 +130,10 @@ def value(ty, p, k, seed=0, width=None, extra=0):
             body += c
         if body and r.random() < 0.2 and len(body[-1].encode("utf-8")) == 1:
             body = body[:-1] + "\x00"          # a value that ends in a NUL character (fixed-width text fields)
-        return "%04d" % (k % 10000) + body
+        tag = "%04d" % (k % 10000)
+        # the counter that keeps values distinct usually leads; now and then it trails, so that any character of the
+        # alphabet (a zero-width no-break space U+FEFF, a quote, a newline) may be the first one of a value
+        return body + tag if r.random() < 0.25 else tag + body
     raise ValueError(ty)
 
 
